@@ -235,6 +235,7 @@ import (
 
 	"github.com/mna/pigeon/ast"
 	"github.com/mna/pigeon/builder"
+	"verifsim/simtask"
 	"verifsim/tooldriver"
 )
 
@@ -289,6 +290,48 @@ func verifRebuild(c *tooldriver.Case, src []byte) (out1, out2 []byte, err1, err2
 		gr2 := g2.(*ast.Grammar)
 		ast.Optimize(gr2, alt...)
 		if e := builder.BuildParser(&b2, gr2, opts...); e != nil {
+			err2 = e.Error()
+		}
+		return b1.Bytes(), b2.Bytes(), err1, err2
+	}
+	if c.RebuildVariant == 3 {
+		// two builds at the same time in one process (a program that generates
+		// several parsers from goroutines), each from its own grammar value and
+		// with its own options: the second toggles the template variant. Both are
+		// tasks of the seeded scheduler, preempted at instrumentation steps. What
+		// the first one emits must be what it emits alone.
+		g2, err := ParseReader("grammar.peg", bytes.NewReader(src))
+		if err != nil {
+			return nil, nil, err.Error(), err.Error()
+		}
+		gr2 := g2.(*ast.Grammar)
+		if optimize {
+			ast.Optimize(gr, alt...)
+			ast.Optimize(gr2, alt...)
+		}
+		opts2 := append(append([]builder.Option(nil), opts...), builder.Optimize(!strings.Contains(strings.Join(c.Args, " "), "-optimize-parser")), builder.ReceiverName("other"))
+		done := false
+		var other bytes.Buffer
+		simtask.Go(func() {
+			defer func() { done = true }()
+			builder.BuildParser(&other, gr2, opts2...)
+		})
+		if e := builder.BuildParser(&b1, gr, opts...); e != nil {
+			err1 = e.Error()
+		}
+		for !done {
+			simtask.Yield()
+		}
+		// ... against the same build made alone
+		g3, err := ParseReader("grammar.peg", bytes.NewReader(src))
+		if err != nil {
+			return nil, nil, err.Error(), err.Error()
+		}
+		gr3 := g3.(*ast.Grammar)
+		if optimize {
+			ast.Optimize(gr3, alt...)
+		}
+		if e := builder.BuildParser(&b2, gr3, opts...); e != nil {
 			err2 = e.Error()
 		}
 		return b1.Bytes(), b2.Bytes(), err1, err2
